@@ -18,7 +18,8 @@ Definition x_C15_h265_ok (v : val) : val :=
 Definition x_C15_h265_bytes (c : val) : val := enc_twice enc_vobs (twice go_h265_obs (as_bytes c)).
 Definition x_C15_h265_glue_ok (v : val) : val :=
   let c := nthv 0 v in let o := nthv 1 v in
-  vbool (obs_wellformed o && ok_h265 (dec_env (nthv 0 c)) (as_bytes (nthv 1 c)) (dec_vobs o)).
+  vbool (obs_wellformed (nthv 0 o) && zlist_eqb (as_bytes (nthv 1 o)) (remove_separator (as_bytes (nthv 1 c))) &&
+         ok_h265 (dec_env (nthv 0 c)) (as_bytes (nthv 1 c)) (dec_vobs (nthv 0 o))).
 Definition x_C15_h265_d29 (c : val) : val := enc_vobs (go_h265_decode_with go_h265_sps_d29 (as_bytes c)).
 
 Definition enc_pobs (o : pobs) : val :=
@@ -62,8 +63,15 @@ Definition x_C15_h265i_ok (v : val) : val :=
 (* SDP glue: Stream.Video stays empty when the SPS does not decode or decodes to width 0 *)
 Definition glue_view (o : vobs) : vobs :=
   match o with Some (0, _, _, _) => None | _ => o end.
-Definition x_C15_h264_glue (c : val) : val := enc_vobs (glue_view (go_h264_obs (as_bytes (nthv 1 c)))).
-Definition x_C15_h264_glueb (c : val) : val := enc_vobs (glue_view (go_h264_obs (as_bytes c))).
-Definition x_C15_h265_glue (c : val) : val := enc_vobs (glue_view (go_h265_obs (as_bytes (nthv 1 c)))).
-Definition x_C15_h265_glueb (c : val) : val := enc_vobs (glue_view (go_h265_obs (as_bytes c))).
+(* the SDP code stores the sprop parameter set after utils.RemoveNaluSeparator and parses that:
+   observation = (what Stream.Video reports, the stored Sps) *)
+Definition glue_obs (f : list Z -> vobs) (nal : list Z) : val :=
+  let st := remove_separator nal in VL [enc_vobs (glue_view (f st)); VB st].
+Definition x_C15_h264_glue (c : val) : val := glue_obs go_h264_obs (as_bytes (nthv 1 c)).
+Definition x_C15_h264_glueb (c : val) : val := glue_obs go_h264_obs (as_bytes c).
+Definition x_C15_h265_glue (c : val) : val := glue_obs go_h265_obs (as_bytes (nthv 1 c)).
+Definition x_C15_h265_glueb (c : val) : val := glue_obs go_h265_obs (as_bytes c).
+(* stored = the bytes sent without a start-code prefix *)
+Definition stored_ok (nal : list Z) (o : val) : bool :=
+  zlist_eqb (as_bytes (nthv 1 o)) (remove_separator nal).
 Definition x_C15_sdpaac (c : val) : val := VL [VI 1; VI 48000; VI 2].
